@@ -58,6 +58,8 @@ def run_gosym(cfg, tier, outfile, extra=None):
         args += ["-sched", "-preempt", str(t.get("preempt", 2))]
     for p in cfg["pkgs"]:
         args += ["-pkg", p]
+    if cfg.get("support"):
+        args += ["-support", cfg["support"]]
     if extra:
         args += extra
     p = subprocess.run(args, env=GOENV, stdout=subprocess.PIPE, stderr=subprocess.PIPE, text=True)
